@@ -252,6 +252,8 @@ class C15(runner.Prop):
                 ctx.evaluations += 1
                 if K >= 3:
                     ctx.nontrivial_hashes.add(runner.jhash([case['t'], name, k]))
+                    if len(ctx.samples) < 4 and ctx.evaluations % 997 == 1:
+                        ctx.samples.append({'t': case['t'], 'op': name, 'k': k, 'K': K, 'fault_at': kinds[k - 1]})
             if failure:
                 ctx.fail(f'{name}/{failure[0]}', failure[1])
                 continue
